@@ -12,6 +12,7 @@ import sys
 import time
 
 V = os.path.dirname(os.path.dirname(os.path.abspath(__file__)))
+R = "/repo"
 
 
 def sh(cmd, **kw):
@@ -23,10 +24,19 @@ def main():
     ap.add_argument("--tier", default="quick")
     ap.add_argument("--only", nargs="*")
     ap.add_argument("--seeds", default="1")
+    ap.add_argument("--in-repo", action="store_true",
+                    help="apply to /repo itself (git -C /repo apply ... checkout) instead of a scratch copy; "
+                         "only when nothing else is using /repo")
     a = ap.parse_args()
+    global R
+    if not a.in_repo:
+        # scratch copy of /repo's working tree: sub-agents and background runs keep seeing the real tree
+        R = "/var/tmp/pdsh-seeded-repo"
+        sh("rm -rf %s && cp -a /repo %s" % (R, R))
+        os.environ["VERIF_REPO"] = R
     sdir = os.path.join(V, "seeded")
     rows = []
-    dirty = sh("git -C /repo status --porcelain --untracked-files=no").stdout.decode().strip()
+    dirty = sh("git -C %s status" % R + " --porcelain --untracked-files=no").stdout.decode().strip() if False else sh("git -C " + R + " status --porcelain --untracked-files=no").stdout.decode().strip()
     if dirty:
         print("refusing: /repo has uncommitted tracked changes:\n" + dirty)
         sys.exit(2)
@@ -40,7 +50,7 @@ def main():
         props = meta.get("checks") or [meta["property"]]
         for prop in props:
             for seed in a.seeds.split(","):
-                p = sh("git -C /repo apply %s" % os.path.join(d, "patch.diff"))
+                p = sh("git -C %s apply %s" % (R, os.path.join(d, "patch.diff")))
                 if p.returncode != 0:
                     rows.append((sid, prop, seed, "PATCH-DOES-NOT-APPLY", "", 0))
                     continue
@@ -50,7 +60,9 @@ def main():
                     out = r.stdout.decode("utf-8", "replace")
                     rc = r.returncode
                 finally:
-                    sh("git -C /repo checkout -- .")
+                    sh("git -C %s checkout -- ." % R)
+                    # a run against a seeded change must not leave its evidence behind
+                    sh("git -C %s checkout -- evidence/%s.json" % (V, prop))
                 viol = [l for l in out.splitlines() if l.startswith("VIOLATION")]
                 kind = "missed"
                 if rc != 0 and viol:
@@ -63,11 +75,25 @@ def main():
                         break
                 rows.append((sid, prop, seed, kind, what, round(time.time() - t0)))
                 print(sid, prop, "seed", seed, kind, flush=True)
+    # results accumulate across invocations (latest run per change/check/seed/tier wins)
+    rj = os.path.join(sdir, "results.json")
+    allr = json.load(open(rj)) if os.path.exists(rj) else {}
+    head = sh("git -C /repo rev-parse --short HEAD").stdout.decode().strip()
+    for r in rows:
+        allr["%s|%s|%s|%s" % (r[0], r[1], r[2], a.tier)] = {"change": r[0], "check": r[1], "seed": r[2], "tier": a.tier,
+                                                           "result": r[3], "first_report": r[4], "s": r[5],
+                                                           "repo_head": head}
+    json.dump(allr, open(rj, "w"), indent=1, sort_keys=True)
     with open(os.path.join(sdir, "RESULTS.md"), "w") as f:
-        f.write("# Seeded changes vs checks (tier %s)\n\n| seeded change | check | seed | result | first report | s |\n"
-                "|---|---|---|---|---|---|\n" % a.tier)
-        for r in rows:
-            f.write("| %s | %s | %s | %s | %s | %s |\n" % tuple(str(x).replace("|", "\\|") for x in r))
+        f.write("# Seeded changes vs checks (latest run of each change/check/seed/tier)\n\n"
+                "| seeded change | check | seed | tier | result | first report | s | /repo HEAD |\n"
+                "|---|---|---|---|---|---|---|---|\n")
+        for k in sorted(allr):
+            r = allr[k]
+            f.write("| %s | %s | %s | %s | %s | %s | %s | %s |\n" % tuple(
+                str(r[x]).replace("|", "\\|") for x in ("change", "check", "seed", "tier", "result", "first_report", "s", "repo_head")))
+    if not a.in_repo:
+        sh("rm -rf %s" % R)
     missed = [r for r in rows if r[3] == "missed"]
     print("%d runs, %d missed" % (len(rows), len(missed)))
 
